@@ -96,6 +96,7 @@ def parseEvent (toks : List String) : Option Event :=
   | "CY" :: rest => do let n ← nums rest; match n with | c :: r => if r.length == c then some (.cycle r) else none | _ => none
   | "ER" :: rest => do let n ← nums rest; match n with | [c] => some (.error c) | _ => none
   | ["X"] => some .cancel
+  | ["KILL"] => some .crash
   | "R" :: rest => do let n ← nums rest; match n with | [v] => some (.ret v) | _ => none
   | "Z" :: rest => do let n ← nums rest; match n with | [a, b] => some (.tail a b) | _ => none
   | _ => none
@@ -115,6 +116,7 @@ def splitAtWrite (k : String) : List String → List String → Option (List Str
     | "L" :: _ => splitAtWrite k (acc ++ [e]) rest
     | "G" :: _ => splitAtWrite k (acc ++ [e]) rest
     | ["X"] => splitAtWrite k (acc ++ [e]) rest
+    | ["KILL"] => some (acc, e, rest)      -- the process died before the write: the completion never took effect
     | "DS" :: k' :: _ => if k == k' then some (acc, e, rest) else none
     | _ => none
   | _, [] => none
